@@ -312,7 +312,7 @@ pub fn run(ctx: &Ctx) -> Report {
          text replace => out == content; mixed lists => strip insert sentinels, then the replace relation; the same relations when the chain errors at any chunk; non-trivial = a sentinel is present in the output, or the chain entered its error state (hook) on a multi-chunk schedule; distinct by case hash",
     );
     rep.assume("compressed bodies are C14's subject: only unsupported encodings are generated here; a value is allowed at most once per '<' of the input (runaway guard, weaker than 'once per target')");
-    rep.add(run_part(ctx, "bytes", ctx.cases(150_000, 3_000_000), strategy, check, &[]));
+    rep.add(run_part(ctx, "bytes", ctx.cases(1_500_000, 40_000_000), strategy, check, &[]));
     rep
 }
 
